@@ -212,6 +212,8 @@ func describeCalls(calls []cycle.Call) string {
 			d = append(d, fmt.Sprintf("bind(%s->%s)", cl.Pod, cl.Node))
 		case "pipe":
 			d = append(d, fmt.Sprintf("pipe(%s->%s)", cl.Pod, cl.Node))
+		case "bindfail":
+			d = append(d, fmt.Sprintf("bindREFUSED(%s->%s)", cl.Pod, cl.Node))
 		case "evict":
 			// same shape as cycle.Describe (known-finding signatures match on it)
 			d = append(d, fmt.Sprintf("evict(%s,%s) for=%s", cl.Pod, cl.Action, cl.Preemptor))
@@ -222,12 +224,23 @@ func describeCalls(calls []cycle.Call) string {
 
 // AllocCase runs ONLY the allocate action on c and returns the KAlloc term.
 func AllocCase(c cycle.Cluster, cfg Config, full bool, tag string) (term, label string, st map[string]int) {
+	term, label, st, _ = allocCase(c, cfg, full, tag, nil)
+	return term, label, st
+}
+
+// allocCase: the allocate action on c; with a fault oracle (fs != nil) the session's cache refuses the
+// Bind calls the oracle selects and the result is a KFault term (fault.go), otherwise a KAlloc term.
+func allocCase(c cycle.Cluster, cfg Config, full bool, tag string, fs *faultSpec) (term, label string, st map[string]int, fr *faultRun) {
 	st = map[string]int{}
 	c.Actions = []string{"allocate"}
 	b, tr := Setup(c, cfg)
+	if fs != nil {
+		installFaults(b, *fs)
+	}
 	e := newEmitter(c, b)
 	nodes, tis, running := e.snapshot()
 	queues, jobs := e.queuesJobs()
+	pendingAtStart := e.pendingPods()
 	if pmsg := cycle.RunActions(b, c.Actions); pmsg != "" {
 		st["PANIC"]++
 		fmt.Fprintf(os.Stderr, "PANIC in allocate: %s\n  cluster: %s\n", pmsg, cycle.Describe(c))
@@ -248,6 +261,12 @@ func AllocCase(c cycle.Cluster, cfg Config, full bool, tag string) (term, label 
 			if cl.Kind == "bind" || cl.Kind == "pipe" {
 				ps = append(ps, e.placed(cl))
 				st["call:"+cl.Kind]++
+			}
+		}
+		if fs != nil {
+			// operations of a commit that a refused Bind cut short: no Cache call, the pod keeps its placement in the session
+			for _, ph := range e.dropped(a) {
+				ps = append(ps, e.placed(ph))
 			}
 		}
 		ats = append(ats, fmt.Sprintf("(mkAt %s %s %s %s)", u.Pos(e.ids.Of("j:"+a.Job)), u.List(ts), u.List(vs), u.List(ps)))
@@ -280,12 +299,23 @@ func AllocCase(c cycle.Cluster, cfg Config, full bool, tag string) (term, label 
 		remDesc = append(remDesc, fmt.Sprintf("%s(%d)", j.Name, len(unit)))
 		st["remaining-units"]++
 	}
-	term = fmt.Sprintf("(KAlloc (mkAC %s %s %s %s %s %s %s %s %s))", nodes, tis, jobs, queues, running, u.List(ats),
+	ac := fmt.Sprintf("(mkAC %s %s %s %s %s %s %s %s %s)", nodes, tis, jobs, queues, running, u.List(ats),
 		sortedAmap(final), u.List(rem), u.Bool(full))
 	var calls []cycle.Call
 	for _, a := range tr.Attempts {
 		calls = append(calls, a.Calls...)
 	}
+	if fs != nil {
+		fr = e.faultTerms(tr, pendingAtStart)
+		term = fmt.Sprintf("(KFault (mkFC %s %s %s))", ac, fr.callsTerm, fr.statusTerm)
+		label = fmt.Sprintf("fault %soracle=%s %s %s => %s remaining[%s] dropped[%s]", tag, fs, cfg, cycle.Describe(c), describeCalls(calls),
+			strings.Join(remDesc, " "), strings.Join(fr.dropped, " "))
+		for k, v := range fr.stats {
+			st[k] += v
+		}
+		return term, label, st, fr
+	}
+	term = "(KAlloc " + ac + ")"
 	label = fmt.Sprintf("alloc %s%s %s => %s remaining[%s]", tag, cfg, cycle.Describe(c), describeCalls(calls), strings.Join(remDesc, " "))
-	return term, label, st
+	return term, label, st, nil
 }
